@@ -580,7 +580,11 @@ fn parse_free(line: &str) -> Option<Free> {
 fn run_free(work: &Path, f: &Free, src: &Sources, hook: bool) -> String {
     setup_case(work, &f.setup, src);
     let tmo = if hook { Some(1500u64) } else { None };
-    let limit = Duration::from_secs(if hook { 30 } else { 50 });
+    // Without the hook the lock timeout is the real 30 s.  The quick tier does not sit it out:
+    // callers still running after 6 s are killed by the harness (reported as `dead`, and the case
+    // counts as one with crashes); the thorough tier waits for the real timeout.
+    let patient = hook || tier_is_thorough();
+    let limit = Duration::from_secs(if hook { 30 } else if patient { 50 } else { 6 });
     let mut children = Vec::new();
     let mut idsets = Vec::new();
     for p in 0..f.procs {
@@ -605,16 +609,20 @@ fn run_free(work: &Path, f: &Free, src: &Sources, hook: bool) -> String {
         hang |= to;
         for id in &idsets[p] {
             let r = lines.iter().find_map(|l| l.strip_prefix(&format!("{id} ")).map(|s| s.to_string()));
-            results.push(r.unwrap_or_else(|| if to { "hang".into() } else { "dead".into() }));
+            results.push(r.unwrap_or_else(|| if to && patient { "hang".into() } else { "dead".into() }));
         }
     }
     let finallib = probe_lib(work);
     let lockleft = lock_path(work).exists();
-    let later = if f.later { later_load(work, tmo, limit) } else { "skip".into() };
+    // a later load against a leftover lock would block for the real timeout
+    let stuck = lockleft && finallib != "v2";
+    let later = if f.later && (patient || !stuck) { later_load(work, tmo, limit) } else { "skip".into() };
+    let later = if later == "hang" && !patient { "skip".to_string() } else { later };
+    let hang = hang && patient;
     format!(
         "n={} crash={} killed={} results={} finallib={} lockleft={} later={} problem={}",
         f.procs * f.threads,
-        f.kill_after_ms.is_some() as u8,
+        (f.kill_after_ms.is_some() || (!patient && results.iter().any(|r| r == "dead"))) as u8,
         killed as u8,
         results.join(";"),
         finallib,
@@ -746,10 +754,10 @@ fn main() {
             let lib = libs[k % 3].to_string();
             let (procs, threads) = shapes[(k / 3) % shapes.len()];
             // in no-hook mode a leftover lock costs the real 30 s: only one such case (k == 1)
-            let lock = if hook { rng.chance(1, 6) } else { false };
+            let lock = if hook || thorough { rng.chance(1, 6) } else { false };
             let broken = rng.chance(1, 7);
             let kill = if rng.chance(if hook { 3 } else { 2 }, 6) { Some(rng.range(0, 260) as u64) } else { None };
-            let later = hook || kill.is_none();
+            let later = hook || thorough || kill.is_none();
             frees.push(Free {
                 id: format!("f{k}"),
                 setup: Setup { lib, lock, temp: rng.chance(1, 4), broken, scanner: rng.chance(1, 4) },
@@ -774,8 +782,14 @@ fn main() {
         }
     }
     let skipped_sched = if hook { 0 } else { 1 };
-    // long-sleeping free cases first so that they overlap with everything else
+    let patient = hook || thorough;
+    let mut skipped_free = 0;
     for f in frees {
+        // a leftover lock with an absent/stale library means sitting out the real 30 s timeout
+        if !patient && f.setup.lock && f.setup.lib != "fresh" && spec_file.is_none() {
+            skipped_free += 1;
+            continue;
+        }
         jobs.push((jobs.len(), Job::F(f)));
     }
     let total = jobs.len();
@@ -814,7 +828,7 @@ fn main() {
     let mut res = results.lock().unwrap().clone();
     res.sort();
     let mut out = std::io::BufWriter::new(fs::File::create(&out_path).unwrap());
-    writeln!(out, "mode hook={} skipped_sched={} variant={}", hook as u8, skipped_sched, variant).unwrap();
+    writeln!(out, "mode hook={} skipped_sched={} variant={} patient={} skipped_free={}", hook as u8, skipped_sched, variant, patient as u8, skipped_free).unwrap();
     for (_, l) in &res {
         writeln!(out, "{l}").unwrap();
     }
